@@ -19,7 +19,12 @@
  *
  * stdout, per sequence: "BEGIN", one line per primitive arena operation
  *   <a> <op with handles> => <result> | <frames> <a->frame->len> <a->refs> | <sum actual> <sum shadow>
- * lines starting with '#' for buffer/vector level checks, and "END done|signal N|exit N".
+ * ("<a> <op> => p wild <r>" and exit status 96 when a returned pointer lies in no frame; r = pointer mod 16),
+ * lines starting with '#' for buffer/vector level operations ("# <a> <OP> <obj> begin <args>" before the
+ * operation's primitive lines, "# <a> <OP> <obj> => c <ok>" after them), and "END done|signal N|exit N".
+ * A leave of a scope that is not the innermost one (L k, k > 0) is judged by the property's reading:
+ * the blocks of the scopes still open stay live (shadow copies keep being compared); a block whose
+ * frame the leave gave back to malloc makes the two checksums of that line differ.
  * Every sequence runs in a forked child so that a trap ends only that sequence.
  * Handle i of an arena = the i-th pointer returned by a primitive operation on it.
  */
@@ -76,7 +81,17 @@ static struct obj objs[MAXOBJ];
 static int cur_obj = -1;
 static uintptr_t cl_log[MAXLOG];
 static int cl_n;
-static int nonlifo;	/* a non-LIFO leave happened: the harness' own liveness tracking is off */
+static int lost_now;	/* live blocks of scopes still open whose frame the last leave freed */
+
+/* the harness reads the arena's own words (frame list, len, refs) also where ASan has poisoned them
+ * (after the "len = 0" rewind frame_poison covers struct arena_frame itself) */
+#if defined(__clang__)
+#define NOASAN __attribute__((no_sanitize("address")))
+#elif defined(__GNUC__)
+#define NOASAN __attribute__((no_sanitize_address))
+#else
+#define NOASAN
+#endif
 
 static void
 die(const char *msg)
@@ -86,15 +101,19 @@ die(const char *msg)
 	_exit(97);
 }
 
-static uint64_t
+/* checksums are also taken of blocks the arena has poisoned although, by the property, they are still
+ * live (after a leave of a scope that is not the innermost one): no ASan instrumentation, no memcpy */
+NOASAN static uint64_t
 cks(uint64_t h, const unsigned char *p, size_t n)
 {
 	size_t i = 0;
 
 	for (; i + 8 <= n; i += 8) {
-		uint64_t w;
+		uint64_t w = 0;
+		int q;
 
-		memcpy(&w, p + i, 8);
+		for (q = 0; q < 8; q++)
+			w |= (uint64_t)p[i + q] << (8 * q);
 		h = (h ^ w) * 0x9E3779B97F4A7C15ULL;
 		h ^= h >> 29;
 	}
@@ -105,7 +124,7 @@ cks(uint64_t h, const unsigned char *p, size_t n)
 }
 
 /* frame index (oldest = 0), offset and frame size of a pointer */
-static int
+NOASAN static int
 locate(struct ar *A, const char *ptr, size_t *off, size_t *fsize)
 {
 	struct arena_frame *f;
@@ -123,7 +142,7 @@ locate(struct ar *A, const char *ptr, size_t *off, size_t *fsize)
 	return -1;
 }
 
-static void
+NOASAN static void
 print_shape(struct ar *A)
 {
 	struct arena_frame *f;
@@ -139,7 +158,7 @@ print_shape(struct ar *A)
 }
 
 /* checksums over every live block of both arenas: actual contents and shadow copies */
-static void
+NOASAN static void
 print_sums(void)
 {
 	uint64_t sa = 14695981039346656037ULL, ss = 14695981039346656037ULL;
@@ -159,7 +178,17 @@ print_sums(void)
 			ss = cks(ss ^ (uint64_t)i, b->shadow, b->size);
 		}
 	}
-	printf(" | %016" PRIx64 " %016" PRIx64, nonlifo ? 0 : sa, nonlifo ? 0 : ss);
+	if (lost_now > 0) {
+		sa ^= 0x6c6f7374ULL + (uint64_t)lost_now;	/* "lost": contents gone with the frame */
+		lost_now = 0;
+	}
+	printf(" | %016" PRIx64 " %016" PRIx64, sa, ss);
+}
+
+NOASAN static int
+frame_len_is_zero(struct ar *A)
+{
+	return !A->gone && A->a->frame != NULL && A->a->frame->len == 0;
 }
 
 static void
@@ -170,6 +199,20 @@ snapshot(struct blk *b)
 	if (b->shadow == NULL)
 		die("malloc shadow");
 	memcpy(b->shadow, b->ptr, b->size);
+}
+
+/* a pointer that lies in no frame of the arena: say so (with its residue modulo 16) and stop - nothing
+ * can be read through it */
+static void
+check_wild(struct ar *A, const char *ptr)
+{
+	size_t off = 0, fsize = 0;
+
+	if (ptr == NULL || A->gone || locate(A, ptr, &off, &fsize) >= 0)
+		return;
+	printf(" => p wild %u\n", (unsigned int)((uintptr_t)ptr & 15));
+	fflush(stdout);
+	_exit(96);
 }
 
 static int
@@ -273,6 +316,7 @@ do_malloc(struct ar *A, int k, size_t size)
 	printf("%d M %d %zu", (int)(A - ars), k, size);
 	fflush(stdout);
 	p = arena_malloc(scope_at(A, k), size);
+	check_wild(A, p);
 	new_handle(A, p, size, A->depth - k);
 	finish_ptr(A, p, -1);
 	return p;
@@ -286,6 +330,7 @@ do_calloc(struct ar *A, int k, size_t nmemb, size_t size)
 	printf("%d C %d %zu %zu", (int)(A - ars), k, nmemb, size);
 	fflush(stdout);
 	p = arena_calloc(scope_at(A, k), nmemb, size);
+	check_wild(A, p);
 	new_handle(A, p, nmemb * size, A->depth - k);
 	finish_ptr(A, p, -1);
 	return p;
@@ -313,6 +358,7 @@ do_realloc(struct ar *A, int k, int h, size_t mis, size_t old, size_t new)
 		memcpy(before, ob->ptr, n);
 	}
 	p = arena_realloc(scope_at(A, k), src, old, new);
+	check_wild(A, p);
 	if (p != NULL) {
 		if (before != NULL) {
 			prefix = memcmp(p, before, n) == 0;
@@ -454,18 +500,32 @@ exec_op(char **tok, int n)
 		level = A->depth - k;
 		cl_n = 0;
 		arena_scope_leave(s);
-		if (k != 0)
-			nonlifo = 1;
 		for (j = A->depth - 1 - k; j < A->depth - 1; j++)
 			A->scopes[j] = A->scopes[j + 1];
 		A->depth--;
 		if (A->free_called && A->depth == 0)
 			A->gone = 1;
 		for (j = 0; j < A->nblk; j++) {
-			if (A->blks[j].level >= level)
-				A->blks[j].live = 0;
+			struct blk *b = &A->blks[j];
+			size_t off, fsize;
+
+			if (!b->live)
+				continue;
+			if (b->level == level || A->gone) {
+				b->live = 0;
+			} else if (b->level > level) {
+				/* a scope nested in the one left, still open (k > 0): "leaving a
+				 * scope invalidates only that scope's blocks" - the block stays live
+				 * unless the leave has freed the frame it lies in */
+				if (locate(A, b->ptr, &off, &fsize) < 0) {
+					b->live = 0;
+					lost_now++;
+				} else {
+					b->level--;
+				}
+			}
 		}
-		reset = !A->gone && A->a->frame != NULL && A->a->frame->len == 0;
+		reset = frame_len_is_zero(A);
 		printf(" => l %d %d", reset, cl_n);
 		for (j = 0; j < cl_n; j++)
 			printf(" %" PRIuPTR, cl_log[j]);
@@ -533,6 +593,7 @@ exec_op(char **tok, int n)
 			len = strlen((char *)data);
 			p = arena_sprintf(scope_at(A, k), "%s", (char *)data);
 		}
+		check_wild(A, p);
 		new_handle(A, p, len + 1, A->depth - k);
 		A->labels[label] = A->nblk - 1;
 		finish_ptr(A, p, -1);
@@ -546,6 +607,7 @@ exec_op(char **tok, int n)
 		fflush(stdout);
 		s = scope_at(A, k);
 		arena_cleanup(s, cleanup_cb, (void *)t);
+		check_wild(A, (char *)s->cleanup);
 		finish_ptr(A, (char *)s->cleanup, -1);
 	} else if (strcmp(op, "F") == 0) {
 		size_t off, len;
@@ -602,6 +664,8 @@ exec_op(char **tok, int n)
 		o = (int)num(tok, &i, n);
 		if (o < 0 || o >= MAXOBJ)
 			die("object id");
+		printf("# %d BA %d begin %zu\n", ai, o, init);
+		fflush(stdout);
 		cur_obj = o;
 		objs[o].kind = 1;
 		objs[o].arena = ai;
@@ -622,6 +686,8 @@ exec_op(char **tok, int n)
 		len = unhex(tok[i++], data, sizeof(data));
 		if (o < 0 || o >= MAXOBJ || objs[o].kind != 1)
 			die("not a buffer");
+		printf("# %d BP %d begin %zu\n", ai, o, len);
+		fflush(stdout);
 		cur_obj = o;
 		buffer_puts(objs[o].bf, (char *)data, len);
 		if (objs[o].expect_len + len <= (1 << 20)) {
@@ -654,6 +720,8 @@ exec_op(char **tok, int n)
 		o = (int)num(tok, &i, n);
 		if (o < 0 || o >= MAXOBJ)
 			die("object id");
+		printf("# %d VI %d begin %zu %zu\n", ai, o, stride, cnt);
+		fflush(stdout);
 		cur_obj = o;
 		objs[o].kind = 2;
 		objs[o].arena = ai;
@@ -673,6 +741,8 @@ exec_op(char **tok, int n)
 		cnt = num(tok, &i, n);
 		if (o < 0 || o >= MAXOBJ || objs[o].kind != 2)
 			die("not a vector");
+		printf("# %d VA %d begin %zu\n", ai, o, cnt);
+		fflush(stdout);
 		cur_obj = o;
 		for (e = 0; e < cnt; e++) {
 			size_t idx = vector_alloc((void **)&objs[o].vc, 0);
@@ -708,6 +778,8 @@ exec_op(char **tok, int n)
 		cnt = num(tok, &i, n);
 		if (o < 0 || o >= MAXOBJ || objs[o].kind != 2)
 			die("not a vector");
+		printf("# %d VR %d begin %zu\n", ai, o, cnt);
+		fflush(stdout);
 		cur_obj = o;
 		if (vector_reserve((void **)&objs[o].vc, cnt))
 			die("vector_reserve");
@@ -779,6 +851,7 @@ main(void)
 			/* keep the diagnostics of arena_scope_validate / err out of the way */
 			if (freopen("/dev/null", "w", stderr) == NULL)
 				_exit(98);
+			alarm(60);	/* a corrupted frame list must not hang the run */
 			run_sequence(line);
 			fflush(stdout);
 			_exit(0);
